@@ -7,4 +7,7 @@ CHECKS = {
  "C25": dict(level="model_checking", technique="TLA+ spec (IntSets/SetClosure) + TLC: exhaustive small universes enumerated by TLC, replayed into the real code, results validated by a TLC trace spec",
    text="Bounded-exhaustive: every pair of finite/co-finite sets over 0..3 and every API-constructible equation system with <=3 nodes is executed on the real container/set code and TLC checks each recorded result against set semantics and the stratified least solution; seeded random 4-7 node systems and a regression corpus on top. Right level: the space of small systems is finite and the defects (aliasing, fixpoint iteration, cycle detection) show up in small systems.",
    note="Trusts TLC, the Json module, and the harness's construction of systems through the public Closure API; systems the API cannot build (intersection/complement nodes referring to later nodes) are outside the universe."),
+ "C26": dict(level="model_checking", technique="TLA+ spec (Graphs) + TLC: all digraphs on <=4 vertices enumerated by TLC, run through the real code, every recorded result validated by a TLC trace spec",
+   text="Bounded-exhaustive: every digraph with 1..4 vertices (66,066 graphs) plus seeded random graphs up to 8 vertices is run through graph.Tarjan, Matrix.Closure/Graph, Transpose and LongestPath; TLC checks each record against the declarative definitions (SCC partition, callee-first order, reachability, reversed edges, nil iff cyclic, maximum path length).",
+   note="Trusts TLC and the recording harness; adjacency order is increasing in the exhaustive part and shuffled (with duplicates) in the random part."),
 }
